@@ -163,6 +163,12 @@ def run(ctx):
                     "expected": {"c": exp["c"], "s": exp["s"], "residue": exp["res"], "items": resp.show_items(exp["items"])}}))
         if res is not None and order == "cs":
             kcases.append((cch, ct, sch, st, res))
+    used = {resp.ascii_upper(ex["cmd"][0]) for c in cases for ex in c[1]}
+    ctx.cov["commands_of_table_exercised"] = "%d of %d" % (len(used & set(tb["commands"])), len(tb["commands"]))
+    usedk = {ex["reply"][1] for c in cases for ex in c[1] if ex["reply"][0] == "s"}
+    ctx.cov["keywords_of_table_exercised"] = "%d of %d" % (len(usedk & set(tb["keywords"])), len(tb["keywords"]))
+    ctx.cov["exchanges"] = sum(len(c[1]) for c in cases)
+    ctx.cov["largest_stream_bytes"] = max(sum(len(x) for x in c[2]) + sum(len(x) for x in c[4]) for c in cases)
     mid = cases[len(cases) // 3]
     ctx.sample({"kind": "conversation", "label": mid[0], "exchanges": len(mid[1]),
                 "client": repr(b"".join(mid[2]))[:200], "server": repr(b"".join(mid[4]))[:200], "order": mid[6]})
